@@ -395,7 +395,9 @@ pub fn c16_case(env: &mut Env, rep: &mut Report, case_seed: u64, cfg: &C16Cfg) {
     let mut parse_done = false;
     loop {
         polls += 1;
-        let r = match s.get(&path) {
+        // every third poll goes through the list endpoint; the entry of this problem is judged the same way
+        let via_list = polls % 3 == 0;
+        let r = match s.get(if via_list { "/adf/" } else { &path }) {
             Ok(r) => r,
             Err(e) => {
                 rep.inconclusive.push(format!("GET failed: {} (server alive: {}; {})", e, env.alive(), env.server_log_tail()));
@@ -407,10 +409,21 @@ pub fn c16_case(env: &mut Env, rep: &mut Report, case_seed: u64, cfg: &C16Cfg) {
             rep.violation("get-status", format!("GET {} -> {} {}", path, r.status, r.text()), replay);
             return;
         }
-        let Some(body) = r.json() else {
+        let Some(mut body) = r.json() else {
             rep.violation("get-body-not-json", r.text().chars().take(200).collect(), replay);
             return;
         };
+        if via_list {
+            rep.count("list_polls", 1);
+            let entry = body.as_array().and_then(|a| a.iter().find(|p| p["name"].as_str() == Some(name.as_str())).cloned());
+            match entry {
+                Some(e) => body = e,
+                None => {
+                    rep.violation("problem-missing-from-list", format!("GET /adf/ does not list {:?}", name), replay);
+                    return;
+                }
+            }
+        }
         let obs = match check_body(rep, &case, &body, negative, &dups) {
             Ok(o) => o,
             Err((sig, msg)) => {
